@@ -44,5 +44,6 @@ def run(ctx):
     ds.run_cli_stream(ctx, 8 if quick else 120, 5, props={'C05'}, stream='lost_manifest', idempotence=True, script=ds.script_lost_manifest_idempotence)
     ds.run_cli_stream(ctx, 6 if quick else 100, 8, props={'C05'}, stream='shared_root', idempotence=True, script=ds.script_shared_root_filter, setup=ds.setup_shared_root)
     ds.run_cli_stream(ctx, 8 if quick else 100, 8, props={'C05'}, stream='last_module_removed', idempotence=True, script=ds.script_last_module_removed, setup=ds.setup_all_targets)
+    ds.run_cli_stream(ctx, 6 if quick else 100, 6, props={'C05'}, stream='eol_only', idempotence=True, script=ds.script_eol_only, setup=ds.setup_all_targets)
     ds.run_cli_stream(ctx, 6 if quick else 100, 6, props={'C05'}, stream='backported_edit', idempotence=True, script=ds.script_backported_edit, setup=ds.setup_all_targets)
     ds.run_lib_stream(ctx, 60 if quick else 1500, props={'C05'})
